@@ -615,6 +615,37 @@ func connHasRejection(steps []val.V) bool {
 	return false
 }
 
+// connectSibling makes another Connection from req (through a Client of its own) and runs it: first response one
+// event with the ID "sib-9", then the stream ends; the second attempt (which presents that ID) fails and ends Connect.
+type siblingRT struct{ n int }
+
+func (s *siblingRT) RoundTrip(r *http.Request) (*http.Response, error) {
+	s.n++
+	if s.n > 1 {
+		return nil, errors.New("sibling: no further attempts")
+	}
+	return &http.Response{StatusCode: 200, Header: http.Header{"Content-Type": {"text/event-stream"}},
+		Body: io.NopCloser(strings.NewReader("id: sib-9\ndata: x\n\n")), Request: r}, nil
+}
+
+func connectSibling(req *http.Request) {
+	cl := &sse.Client{
+		HTTPClient:        &http.Client{Transport: &siblingRT{}},
+		ResponseValidator: sse.NoopValidator,
+		Backoff:           sse.Backoff{InitialInterval: time.Nanosecond, MaxInterval: time.Nanosecond, MaxRetries: 1},
+	}
+	done := make(chan struct{})
+	go func() {
+		defer close(done)
+		defer func() { _ = recover() }()
+		_ = cl.NewConnection(req).Connect()
+	}()
+	select {
+	case <-done:
+	case <-time.After(5 * time.Second):
+	}
+}
+
 func execConnect(in val.V) val.V {
 	return guard(func() val.V {
 		cfg, steps := in.At(0), in.At(1)
@@ -700,6 +731,13 @@ func execConnect(in val.V) val.V {
 		}
 		for i := cfg.At(6).Int(); i > 0; i-- {
 			client.NewConnection(req) // other Connections of the same Client, never connected
+			if i%2 == 1 && run.gbKind <= 1 && !cfg.At(5).Truth() {
+				// ... and one made from the same *http.Request that HAS been connected: it received an event with an ID,
+				// lost its stream and reconnected presenting that ID.  A Connection's request is its own; nothing a sibling
+				// does may show in the requests of the Connection under test (bodyless requests only: a sibling would
+				// consume a shared request body).
+				connectSibling(req)
+			}
 		}
 		conn := client.NewConnection(req)
 		if cfg.At(5).Truth() {
